@@ -13,6 +13,8 @@ from __future__ import annotations
 
 import math
 
+import os
+
 import numpy as np
 from hypothesis import strategies as st
 
@@ -72,24 +74,39 @@ def build_fragment(f, cls, tag, exact_dir=None):
         coords = np.round(coords * 4) / 4 + np.array([1.0, -2.0, 3.0])     # exact binary fractions, integer shift
         for (ai, anchor) in aps:
             coords[ai] = coords[anchor] + np.array(exact_dir, dtype=float)
+    K = len(aps)
+    ap_first = bool(f.get("ap_first"))
+    if f.get("ap_plain") and K >= 2:
+        # the first attachment atom is an ordinary terminal hydrogen (join asks for a monovalent atom, not for a type); a TYPED attachment
+        # point exists elsewhere in the fragment
+        atoms[n].atype = AtomType.Regular
+        atoms[n].element = 1
+    if ap_first:
+        # the attachment atoms come FIRST in the atom list (index 0, 1, ...), the body after them
+        order = list(range(n, n + K)) + list(range(n))
+        atoms = [atoms[i] for i in order]
+        coords = coords[order]
+        ix = lambda i: i + K if i < n else i - n       # noqa: E731
+    else:
+        ix = lambda i: i                               # noqa: E731
     kw = {}
     if cls is ml.Molecule:
         kw["atomic_charges"] = np.linspace(-0.3, 0.3, len(atoms))
     m = cls(atoms, name=f"frag{tag}", charge=f["charge"], mult=f["mult"], coords=coords, **kw)
     for i in range(1, n):
-        m.connect(i, f["parents"][i] % i, btype=BondType([1, 2, 3, 20][f["btypes"][i] % 4]), attrib={"of": tag})
+        m.connect(ix(i), ix(f["parents"][i] % i), btype=BondType([1, 2, 3, 20][f["btypes"][i] % 4]), attrib={"of": tag})
     for (a, b) in f["rings"]:
         a, b = a % n, b % n
-        if a != b and m.lookup_bond(a, b) is None:
-            m.connect(a, b)
+        if a != b and m.lookup_bond(ix(a), ix(b)) is None:
+            m.connect(ix(a), ix(b))
     for k, (ai, anchor) in enumerate(aps):
         # the bond to the attachment point may be of any type (e.g. a drawn "=X"), and either way round
         bt = BondType([1, 1, 2, 3, 20][(f.get("ap_btype", 0) + k) % 5])
         if (f.get("ap_btype", 0) + k) % 2:
-            m.connect(ai, anchor, btype=bt)
+            m.connect(ix(ai), ix(anchor), btype=bt)
         else:
-            m.connect(anchor, ai, btype=bt)
-    return m, [ai for ai, _ in aps]
+            m.connect(ix(anchor), ix(ai), btype=bt)
+    return m, [ix(ai) for ai, _ in aps]
 
 
 def kabsch_fit(P, Q):
@@ -276,8 +293,10 @@ def check_join(r) -> list[Fail]:
         eb = e if deg in ("antiparallel", "axis") else [-x for x in e]
         B, apsB = build_fragment(dict(r["B"], aps=r["B"]["aps"][:1]), cls, "b", exact_dir=eb)
     else:
-        A, apsA = build_fragment(dict(r["A"], aps=r["A"]["aps"][:1]), cls, "a")
-        B, apsB = build_fragment(dict(r["B"], aps=r["B"]["aps"][:1]), cls, "b")
+        # A may carry a second attachment point (left over in the product), its attachment atoms may come first in the atom list
+        # (index 0 is then an attachment atom), and the one that is used may be an ordinary terminal H while the other one is typed
+        A, apsA = build_fragment(dict(r["A"], aps=r["A"]["aps"][:2], ap_first=r.get("ap_first"), ap_plain=r.get("ap_plain")), cls, "a")
+        B, apsB = build_fragment(dict(r["B"], aps=r["B"]["aps"][:1], ap_first=r.get("ap_first_b")), cls, "b")
     fails: list[Fail] = []
     wrapped = None
     if r.get("wrapped"):
@@ -332,7 +351,8 @@ def _frag(max_n, n_aps=(1, 1)):
 
 def strat_join(tier):
     return st.fixed_dictionaries({
-        "cls": st.sampled_from(["Molecule", "Molecule", "Structure"]), "A": _frag(10), "B": _frag(10),
+        "cls": st.sampled_from(["Molecule", "Molecule", "Structure"]), "A": _frag(10, (1, 2)), "B": _frag(10),
+        "ap_first": st.booleans(), "ap_first_b": st.booleans(), "ap_plain": st.booleans(),
         "dist": st.one_of(st.none(), st.floats(0.8, 3.0)), "opt": st.booleans(),
         "charge": st.one_of(st.none(), st.none(), st.just(0), st.integers(-3, 3)), "mult": st.one_of(st.none(), st.integers(1, 5)),
         "name": st.one_of(st.none(), st.just("product")),
@@ -461,10 +481,132 @@ def strat_iter(tier):
                                   "bad_sub": st.sampled_from([None, None, None, None, 0, 1, 2, 3])})
 
 
+# ---------------------------------------------------------------- the command itself: `molli combine cores -s substituents -o out -m mode`
+def check_cli(r) -> list[Fail]:
+    """End to end through molli.scripts.combine.molli_main (in-process, placeholder openbabel module): a core library and a substituent
+    library on disk, every mode.  Structural oracle per product, from the inputs alone: the atoms are those of the core and of the chosen
+    substituents minus the attachment points, no attachment point is left, and the i-th attachment site of the core (atom order) carries
+    the i-th substituent of the combination named in the product's key."""
+    import contextlib
+    import io
+    import itertools
+    import shutil
+    import tempfile
+    from collections import Counter
+    import molli as ml
+
+    _real_assemble()
+    from molli.scripts import combine
+
+    fails: list[Fail] = []
+    core, aps = build_fragment(r["core"], ml.Molecule, "c")
+    core.name = "core"
+    aps = sorted(aps)
+    # the LABELS of the attachment points need not follow the atom order (AP2 drawn before AP1)
+    perm = r["ap_relabel"]
+    for k, ai in enumerate(aps):
+        core.atoms[ai].label = f"AP{perm[k % len(perm)] % 9}_{k if r.get('unique_ap_labels', True) else 0}"
+    subs = []
+    for k, sr in enumerate(r["subs"]):
+        m_, _ = build_fragment(dict(sr, aps=sr["aps"][:1]), ml.Molecule, f"s{k}x")
+        m_.name = f"s{k}"
+        subs.append(m_)
+    mode = r["mode"]
+    n_aps = len(aps)
+    if mode in ("permutns", "combns") and len(subs) < n_aps:
+        return []
+    d = tempfile.mkdtemp(prefix="c12cli", dir=os.environ.get("VF_SCRATCH") or None)
+    try:
+        cores_p, subs_p, out_p = (os.path.join(d, n_) for n_ in ("cores.mlib", "subs.mlib", "out.mlib"))
+        import atexit
+        for p_, objs in ((cores_p, [core]), (subs_p, subs)):
+            lib = ml.MoleculeLibrary(p_, readonly=False, overwrite=True)
+            atexit.unregister(lib._backend.flush)
+            with lib.writing():
+                for o in objs:
+                    lib[o.name] = o
+        try:
+            with contextlib.redirect_stdout(io.StringIO()), contextlib.redirect_stderr(io.StringIO()):
+                combine.molli_main([cores_p, "-s", subs_p, "-o", out_p, "-m", mode, "-sep", "+"])
+        except BaseException as e:  # noqa (argparse exits with SystemExit)
+            from vf.core import exc_sig
+            s_ = exc_sig(e) if isinstance(e, Exception) else type(e).__name__
+            if s_ is None:
+                raise
+            return [Fail(f"combine-cli-raises:{s_}", f"mode {mode}, {n_aps} attachment points, {len(subs)} substituents: {e!r}"[:300])]
+        names = [s_.name for s_ in subs]
+        gen = {"same": [(n_,) * n_aps for n_ in names], "permutns": itertools.permutations(names, n_aps),
+               "combns": itertools.combinations(names, n_aps), "combns_repl": itertools.combinations_with_replacement(names, n_aps)}[mode]
+        want = {"+".join(("core",) + tuple(c_)): tuple(c_) for c_ in gen}
+        res = ml.MoleculeLibrary(out_p)
+        atexit.unregister(res._backend.flush)
+        with res.reading():
+            got_keys = set(res.keys())
+            if mode in ("same", "permutns") and got_keys != set(want):
+                return [Fail("combine-cli:product-keys", f"mode {mode}: {sorted(got_keys ^ set(want))[:4]} differ")]
+            if mode in ("combns", "combns_repl"):
+                # (the order inside a combination follows the order in which the substituent library lists its keys: any)
+                gk = sorted(tuple(sorted(k_.split("+")[1:])) for k_ in got_keys)
+                wk = sorted(tuple(sorted(c_)) for c_ in want.values())
+                if gk != wk:
+                    return [Fail("combine-cli:product-keys", f"mode {mode}: combinations {gk[:4]}... vs {wk[:4]}...")]
+            core_nb = []
+            for ai in aps:
+                (nb,) = [x for x in core.connected_atoms(core.atoms[ai])]
+                core_nb.append(nb.label)
+            sub_anchor = {}
+            for s_ in subs:
+                ap_ = s_.attachment_points[0]
+                (nb,) = [x for x in s_.connected_atoms(ap_)]
+                sub_anchor[s_.name] = nb.label
+            core_labels = Counter(a.label for a in core.atoms if not a.is_attachment_point)
+            for key in sorted(got_keys):
+                combo = tuple(key.split("+")[1:])
+                if len(combo) != n_aps or any(c_ not in sub_anchor for c_ in combo):
+                    fails.append(Fail("combine-cli:product-keys", f"{key!r}"))
+                    break
+                P = res[key]
+                exp_labels = Counter(core_labels)
+                for c_ in combo:
+                    exp_labels.update(a.label for a in subs[names.index(c_)].atoms if not a.is_attachment_point)
+                got_labels = Counter(a.label for a in P.atoms)
+                if got_labels != exp_labels:
+                    miss, extra = sorted((exp_labels - got_labels).elements())[:4], sorted((got_labels - exp_labels).elements())[:4]
+                    fails.append(Fail("combine-cli:product-atoms-wrong", f"{key!r} (mode {mode}; attachment point labels {[core.atoms[i].label for i in aps]}): missing {miss}, unexpected {extra}"))
+                    break
+                exp_links = Counter((core_nb[i], sub_anchor[c_]) for i, c_ in enumerate(combo))
+                got_links = Counter()
+                for b in P.bonds:
+                    l1, l2 = b.a1.label, b.a2.label
+                    if l1.startswith("c") and l2.startswith("s"):
+                        got_links[(l1, l2)] += 1
+                    elif l2.startswith("c") and l1.startswith("s"):
+                        got_links[(l2, l1)] += 1
+                if got_links != exp_links:
+                    fails.append(Fail("combine-cli:substituent-on-the-wrong-site", f"{key!r} (mode {mode}; attachment point labels {[core.atoms[i].label for i in aps]}): links {dict(got_links)}, expected {dict(exp_links)}"))
+                    break
+                if not np.all(np.isfinite(P.coords)):
+                    fails.append(Fail("combine-cli:non-finite-coordinates", key))
+                    break
+            tally(units=max(0, len(got_keys) - 1), nontrivial_keys=[])
+    finally:
+        shutil.rmtree(d, ignore_errors=True)
+    return fails
+
+
+def strat_cli(tier):
+    return st.fixed_dictionaries({"core": _frag(6, (2, 3)), "subs": st.lists(_frag(3), min_size=2, max_size=3), "mode": st.sampled_from(["permutns", "permutns", "same", "combns", "combns_repl"]),
+                                  "ap_relabel": st.permutations([1, 2, 3])})
+
+
 LEGS = [
     Leg("join", check_join, classify_join, strategy=strat_join, n={"quick": 2500, "thorough": 50000}, shards={"quick": 16, "thorough": 32},
         rule="constructed 3-D tree/ring fragments of 1-10 heavy atoms + attachment point, random poses, dist None|0.8-3.0, optimize_rotation on/off, charge/mult/name/bond overrides (charge 0 its own class), "
              "attachment vectors in general position / exactly parallel / exactly antiparallel / along z; non-trivial = both fragments have >=3 heavy atoms"),
+    Leg("cli", check_cli, lambda r: (len(r["core"]["aps"]) >= 2, ["mode=" + r["mode"], "ap_labels_in_atom_order" if list(r["ap_relabel"])[: len(r["core"]["aps"])] == sorted(list(r["ap_relabel"])[: len(r["core"]["aps"])]) else "ap_labels_out_of_order"]),
+        strategy=strat_cli, n={"quick": 120, "thorough": 2500}, shards={"quick": 16, "thorough": 32},
+        rule="the command itself: generated core (2-3 attachment points whose LABELS need not follow the atom order) and 2-3 substituents written to libraries, molli.scripts.combine.molli_main run in-process for every mode; "
+             "per product a structural oracle from the inputs alone (atoms, no attachment point left, i-th site carries the i-th substituent named in the key); non-trivial = >=2 attachment points"),
     Leg("iter", check_iter, classify_iter, strategy=strat_iter, n={"quick": 300, "thorough": 5000}, shards={"quick": 16, "thorough": 32},
         rule="cores with 2-4 attachment points, all or a proper subset of them selected, joined successively with substituents exactly as molli combine does (index ap_i - i, optimize_rotation=True): single-join oracle at every step, and the product of the real molli.scripts.combine._ml_assemble (imported with a placeholder openbabel module) must equal the stepwise product; in a third of the cases one substituent is defective (attachment point with two bonds): no product may come back; non-trivial = >=2 joins on a core of >=3 atoms"),
 ]
